@@ -258,6 +258,16 @@ CONCRETE = {
 }
 
 
+# further literals of the same value class (the class, not the literal, is what Store.tla talks about):
+# values beyond the next wider type whose low bits would fit, the extremes of BIGINT
+MORE = {
+    ("smallint", "too_big"): ["65541", "4294967301", "9223372036854775807", "2147483648"],
+    ("smallint", "too_small"): ["(-65531)", "(-4294967289)", "(-9223372036854775807)", "(-2147483649)"],
+    ("int", "too_big"): ["4294967303", "9223372036854775807", "(4294967296 * 3)"],
+    ("int", "too_small"): ["(-4294967289)", "(-9223372036854775807)"],
+}
+
+
 def store_cases():
     r = tlc(os.path.join(SPEC, "Store.tla"), os.path.join(SPEC, "mc", "Store.cfg"), workers=1, timeout=300)
     cases = tlc_lines(r["out"], "CASE")
@@ -330,27 +340,29 @@ def check_c16(args):
             litv, want = CONCRETE[(ty, cls)]
         col = f"v {'boolean' if ty == 'bool' else ty}{'' if nn else ' not null'}"
         kl = "NULL" if sc.get("knull") else "1"
-        for eng in ("mem", "disk"):
-            steps = [{"sql": f"create table t(k int, {col})"}]
-            if form == "values":
-                steps.append({"sql": f"insert into t values ({kl}, {litv})"})
-            elif form == "listed":
-                steps.append({"sql": f"insert into t(k, v) values ({kl}, {litv})"})
-            elif form == "permuted":
-                steps.append({"sql": f"insert into t(v, k) values ({litv}, {kl})"})
-            elif form in ("select", "select_permuted"):
-                steps.append({"sql": "create table src(k int)"})
-                steps.append({"sql": "insert into src values (1)"})
-                steps.append({"sql": f"insert into t select k, {litv} from src" if form == "select" else
-                              f"insert into t(v, k) select {litv}, k from src"})
-            elif form == "subset_other":
-                steps.append({"sql": f"insert into t(v) values ({litv})"})
-                kl = "NULL"
-            else:   # column subset: v is not mentioned -> NULL
-                steps.append({"sql": "insert into t(k) values (1)"})
-            steps.append({"sql": "select v, k from t"})
-            runs2.append({"id": f"{k}.{eng}", "engine": eng, "steps": steps})
-            meta.append((dict(sc, k_offered=kl), litv, want, eng))
+        lits = [(litv, want)] + [(l, None) for l in MORE.get((ty, cls), [])[: (4 if tier == "thorough" else 2)]]
+        for litv, want in lits:
+          for eng in ("mem", "disk"):
+              steps = [{"sql": f"create table t(k int, {col})"}]
+              if form == "values":
+                  steps.append({"sql": f"insert into t values ({kl}, {litv})"})
+              elif form == "listed":
+                  steps.append({"sql": f"insert into t(k, v) values ({kl}, {litv})"})
+              elif form == "permuted":
+                  steps.append({"sql": f"insert into t(v, k) values ({litv}, {kl})"})
+              elif form in ("select", "select_permuted"):
+                  steps.append({"sql": "create table src(k int)"})
+                  steps.append({"sql": "insert into src values (1)"})
+                  steps.append({"sql": f"insert into t select k, {litv} from src" if form == "select" else
+                                f"insert into t(v, k) select {litv}, k from src"})
+              elif form == "subset_other":
+                  steps.append({"sql": f"insert into t(v) values ({litv})"})
+                  kl = "NULL"
+              else:   # column subset: v is not mentioned -> NULL
+                  steps.append({"sql": "insert into t(k) values (1)"})
+              steps.append({"sql": "select v, k from t"})
+              runs2.append({"id": f"{k}.{eng}", "engine": eng, "steps": steps})
+              meta.append((dict(sc, k_offered=kl), litv, want, eng))
     outs2 = run_sharded("sql", runs2, tag="c16b", timeout=1200, case_timeout=30)
     nstore = 0
     for (sc, litv, want, eng), out in zip(meta, outs2):
